@@ -11,7 +11,7 @@ _cfgs="rel relcheck stdmin nostd nostdcheck"
 # the true dev profile (opt-level 0) is slow for the reference model: thorough tier only
 [ "$tier" = "thorough" ] && _cfgs="$_cfgs dev"
 for cfg in $_cfgs; do
-  ( if [ "$cfg" = nostd ]; then build $cfg c16 c06 c14; elif [ "$cfg" = stdmin ]; then build $cfg c16; else build $cfg c16 c14; fi; echo $? > "$ROOT/target/c16-build-$cfg.rc" ) &
+  ( if [ "$cfg" = nostd ]; then build $cfg c16 c06 c14; elif [ "$cfg" = stdmin ]; then build $cfg c16; elif [ "$cfg" = rel ] || [ "$cfg" = relcheck ] || [ "$cfg" = dev ]; then build $cfg c16 c14 c10; else build $cfg c16 c14; fi; echo $? > "$ROOT/target/c16-build-$cfg.rc" ) &
 done
 wait
 for cfg in $_cfgs; do
@@ -57,6 +57,18 @@ for cfg in $_built; do
     NBMC_AS=C16 NBMC_NO_PYREF=1 NBMC_PART=c14-$cfg NBMC_CONFIG=$cfg "$(bindir $cfg)/c14" quick | grep -v "^C16\[" ; _r=${PIPESTATUS[0]}
     [ $_r -gt $_rc ] && _rc=$_r
     _parts="$_parts c14-$cfg"
+  else
+    case " $_lib_broken " in *" $cfg "*) : ;; *) [ $_rc -lt 2 ] && _rc=2 ;; esac
+  fi
+done
+# the operator-form matrix of C10 (every form x the extreme values of every primitive type) in the release and the
+# debug-assertion profile: an overflow that only one profile turns into a panic is a result that differs
+for cfg in $_built; do
+  case "$cfg" in rel|relcheck|dev) ;; *) continue ;; esac
+  if [ -x "$(bindir $cfg)/c10" ]; then
+    NBMC_AS=C16 NBMC_NO_PYREF=1 NBMC_PART=c10-$cfg NBMC_CONFIG=$cfg "$(bindir $cfg)/c10" quick | grep -v "^C16\[" ; _r=${PIPESTATUS[0]}
+    [ $_r -gt $_rc ] && _rc=$_r
+    _parts="$_parts c10-$cfg"
   else
     case " $_lib_broken " in *" $cfg "*) : ;; *) [ $_rc -lt 2 ] && _rc=2 ;; esac
   fi
